@@ -25,13 +25,13 @@ def bases(ctx, tier):
     B["n-generation-before-normal"] = (ops.build(ctx, T, [c("", ["xxh64"], n=True), c("", ["xxh64"])], expect=[0, 0]), True)
     B["n-generation-only"] = (ops.build(ctx, T, [c("", ["xxh64"], n=True)], expect=[0]), False)
     B["empty-folder"] = (ops.build(ctx, {}, [c("", ["xxh64"])], expect=[0]), True)
+    B["three-gens"] = (ops.build(ctx, T, [c("", ["md5"]), c("", ["sha1", "c4"]), c("", ["xxh3"])], expect=[0, 0, 0]), True)
+    B["sf-generation-after-normal"] = (ops.build(ctx, T, [c("", ["xxh64"]), c("", ["xxh64"], sf=["a.txt"])], expect=[0, 0]), True)
     if tier == "thorough":
         B["all-six-formats"] = (ops.build(ctx, T, [c("", ref.FORMATS_CLI)], expect=[0]), True)
-        B["three-gens"] = (ops.build(ctx, T, [c("", ["md5"]), c("", ["sha1", "c4"]), c("", ["xxh3"])], expect=[0, 0, 0]), True)
         t3 = dict(T); t3["d/e/g"] = DIR; t3["d/e/g/h.txt"] = b"content of h"
         B["nested3"] = (ops.build(ctx, t3, [c("d/e/g", ["c4"]), c("d/e", ["sha1"]), c("d", ["md5"]), c("", ["xxh64"])],
                                   expect=[0, 0, 0, 0]), True)
-        B["sf-generation-after-normal"] = (ops.build(ctx, T, [c("", ["xxh64"]), c("", ["xxh64"], sf=["a.txt"])], expect=[0, 0]), True)
     return B
 
 
